@@ -12,7 +12,12 @@ CONFIG = {
                 "headers with tags / marks / qualifiers / descriptions / trailing comments, nested blocks, statements after a "
                 "closing brace or a block comment on the same line, multi-line block comments, strings with escaped newlines, "
                 "multi-line descriptions, leading / trailing / whitespace-only blank lines, missing final newline, odd "
-                "indentation), windows of /repo's .j5s/.bcl/parser testdata with character and line edits, plus a share of "
+                "indentation), windows of /repo's .j5s/.bcl/parser testdata with character and line edits, "
+                "a share of shape-directed files (gen.shapes: Unicode white space U+0085 / U+00A0 / U+2028 / U+3000 / VT / FF between tokens, in "
+                "indentation and after the description bar, several closing braces and other fragments on one line, description blocks "
+                "separated by one token-less line or a comment, header descriptions followed by description blocks, comment / description "
+                "tokens as assignment values, strings over two lines, 14-25 levels of nesting with descriptions (width <= 0), 60-260 rune words, "
+                "unterminated block comment at the end), plus a share of "
                 "token-mutated and random inputs. Non-trivial = parser.Fmt accepts the source (the property's quantifier); "
                 "distinct by op text.",
     }],
